@@ -17,7 +17,7 @@ RULE = ('tagged programs with loops, GOSUBs, calls, recursion, one-line IFs, END
         'executed >=1 command on a running program; distinct = (program shape, command history)')
 ASSUMPTIONS = ['a session is cut at a tick budget (inconclusive for that history, never a violation)',
                'statement identity = debug record (start,end,line); the tag oracle needs no debug information']
-REQUIRED_COUNTERS = ['sessions', 'commands', 'step_progress_checked', 'transparency_compared', 'breakpoint_stops_checked',
+REQUIRED_COUNTERS = ['sessions', 'commands', 'step_progress_checked', 'transparency_compared', 'breakpoint_stops_checked', 'info_commands',
                      'step_tag_checks']
 CASE_TIMEOUT = 900
 TAG_RE = re.compile(r'\b(4[1-9]\d{3})\b')
@@ -68,10 +68,20 @@ def bp_model(di, line):
     return None if best is None else best[1]
 
 
-def run_history(mod, script, text, cmds, free, tagline, st, viol, ctx, budget=40000):
+def hit(active, pc):
+    for a in active:
+        if isinstance(a, tuple):
+            if a[0] <= pc < a[1]:
+                return True
+        elif a == pc:
+            return True
+    return False
+
+
+def run_history(mod, script, text, cmds, free, tagline, st, viol, ctx, budget=40000, autostatus='off'):
     """Execute one command history; append violations."""
     try:
-        s = dbgdrv.DbgSession(mod, script, budget=budget)
+        s = dbgdrv.DbgSession(mod, script, budget=budget, autostatus=autostatus)
     except SystemExit:
         viol.append(V('C12:debugger-exit', f'{ctx}: Cmd() called exit()'))
         return
@@ -87,6 +97,47 @@ def run_history(mod, script, text, cmds, free, tagline, st, viol, ctx, budget=40
         name = c[0]
         arg = c[1] if len(c) > 1 else None
         line = name if arg is None else f'{name} {arg}'
+        if name == 'info':
+            # informational commands (bt, stack, cur, curi, annotate, break without argument, autostatus, print of a
+            # constant): must not fail and must not move the machine
+            snap0 = (s.cpu.pc, s.cpu.halted, s.cpu.halt_reason, len(s.cpu.stack), len(s.impl.h), s.frame_depth())
+            out, exc = s.do(arg)
+            executed.append(arg)
+            st['commands'] += 1
+            st['info_commands'] = st.get('info_commands', 0) + 1
+            if exc is not None:
+                viol.append(V(f'C12:host-exception:{arg.split()[0]}:{rt.crash_sig(exc) if not isinstance(exc, str) else exc}',
+                              f'{ctx} autostatus={autostatus}: after {executed}: {type(exc).__name__}: {exc}', text=text, cmds=executed))
+                return
+            snap1 = (s.cpu.pc, s.cpu.halted, s.cpu.halt_reason, len(s.cpu.stack), len(s.impl.h), s.frame_depth())
+            if snap0 != snap1:
+                viol.append(V(f'C12:info-command-changed-state:{arg.split()[0]}', f'{ctx}: {executed}: (pc, halted, reason, stack, '
+                              f'events, frames) {snap0} -> {snap1}', text=text, cmds=executed))
+                return
+            continue
+        if name in ('breakx', 'delbrx'):
+            # other breakpoint forms: a routine name (range of the routine's code) or a hexadecimal address
+            line = f"{'break' if name == 'breakx' else 'delbr'} {arg}"
+            name = name[:-1]
+            if str(arg).startswith('0x'):
+                model = int(arg, 16)
+            else:
+                rr = di.routines.get(str(arg).lower())
+                model = (rr.start_offset, rr.end_offset) if rr is not None else None
+            out, exc = s.do(line)
+            executed.append(line)
+            st['commands'] += 1
+            st['other_breakpoint_forms'] = st.get('other_breakpoint_forms', 0) + 1
+            if exc is not None:
+                viol.append(V(f'C12:host-exception:{name}:{rt.crash_sig(exc) if not isinstance(exc, str) else exc}',
+                              f'{ctx}: after {executed}: {exc}', text=text, cmds=executed))
+                return
+            if model is not None:
+                if name == 'break':
+                    active.append(model)
+                elif model in active:
+                    active.remove(model)
+            continue
         fin0 = s.finished
         rec0 = s.cur_stmt()
         s0 = stmt_key(rec0)
@@ -131,7 +182,7 @@ def run_history(mod, script, text, cmds, free, tagline, st, viol, ctx, budget=40
             continue
         s1 = stmt_key(s.cur_stmt())
         new_prints = [e for e in s.impl.h[h0:] if e[0] == 'print']
-        at_bp = (not s.finished) and s.cpu.pc in active and s.cpu.halt_reason.name == 'BREAKPOINT'
+        at_bp = (not s.finished) and hit(active, s.cpu.pc) and s.cpu.halt_reason.name == 'BREAKPOINT'
         if name in ('step', 'next'):
             st['step_progress_checked'] += 1
             if not s.finished and s1 == s0 and not at_bp:
@@ -166,7 +217,7 @@ def run_history(mod, script, text, cmds, free, tagline, st, viol, ctx, budget=40
                     return
         if name == 'continue' and not s.finished:
             st['breakpoint_stops_checked'] += 1
-            if s.cpu.pc not in active:
+            if not hit(active, s.cpu.pc):
                 viol.append(V('C12:continue-stopped-without-breakpoint', f'{ctx}: {executed}: continue returned at pc '
                               f'{s.cpu.pc:#x} (line {s1[2] if s1 else None}); active breakpoints {[hex(a) for a in active]}',
                               text=text, cmds=executed))
@@ -175,6 +226,14 @@ def run_history(mod, script, text, cmds, free, tagline, st, viol, ctx, budget=40
         return
     # completion: continue until finished (breakpoints may stop us)
     guard = 0
+    if any(isinstance(a, tuple) for a in active):
+        # a routine breakpoint covers every instruction of the routine: drop those before running to the end
+        for a in [a for a in active if isinstance(a, tuple)]:
+            nm = next((k for k, rr in di.routines.items() if (rr.start_offset, rr.end_offset) == a), None)
+            if nm is not None:
+                s.do(f'delbr {nm}')
+                executed.append(f'delbr {nm}')
+            active.remove(a)
     while not s.finished and guard < 400:
         guard += 1
         out, exc = s.do('continue')
@@ -187,7 +246,7 @@ def run_history(mod, script, text, cmds, free, tagline, st, viol, ctx, budget=40
             return
         if not s.finished:
             st['breakpoint_stops_checked'] += 1
-            if s.cpu.pc not in active:
+            if not hit(active, s.cpu.pc):
                 viol.append(V('C12:continue-stopped-without-breakpoint', f'{ctx}: {executed}+continue x{guard}: stopped at '
                               f'{s.cpu.pc:#x}, active {[hex(a) for a in active]}', text=text, cmds=executed))
                 return
@@ -348,16 +407,32 @@ def run_case(case):
             free = free_run(mod, script)
             if free['outcome'][0] in ('tick_budget', 'crash', 'script_exhausted'):
                 continue
+            rnames = sorted(mod.debug_info.routines) or ['nosuchroutine']
+            starts = [r_.start_offset for r_ in mod.debug_info.stmts if r_.end_offset > r_.start_offset] or [0]
             for h in range(case['nhist']):
                 cmds = []
+                # two thirds of the histories also carry informational commands and the other breakpoint forms, and run with
+                # the debugger's own status display on (source context = its default, or instruction context)
+                noisy = h % 3 != 0
                 for _ in range(r.randint(1, 40)):
+                    if noisy and r.random() < 0.25:
+                        k_ = r.random()
+                        if k_ < 0.7:
+                            cmds.append(['info', r.choice(['bt', 'stack', 'cur', 'curi', 'break', 'autostatus', 'print 1 + 1',
+                                                           'annotate', 'help', 'print nosuchname'])])
+                        elif k_ < 0.85:
+                            cmds.append([r.choice(['breakx', 'breakx', 'delbrx']), r.choice(rnames + ['nosuchroutine'])])
+                        else:
+                            cmds.append([r.choice(['breakx', 'breakx', 'delbrx']), hex(r.choice(starts))])
+                        continue
                     nm = r.choice(CMDS + ['step', 'step', 'next'])
                     if nm in ('break', 'delbr'):
                         cmds.append([nm, r.randint(1, nlines + 1)])
                     else:
                         cmds.append([nm])
                 before = len(viol)
-                run_history(mod, script, text, cmds, free, tagline, st, viol, f'O{O}g')
+                run_history(mod, script, text, cmds, free, tagline, st, viol, f'O{O}g',
+                            autostatus=['off', 'cur', 'curi'][h % 3])
                 shapes.append(f'{shape_of(text)}|{O}|{h}')
                 if len(viol) > before:
                     break
